@@ -60,7 +60,7 @@ def nameless : Str := ['n', 'a', 'm', 'e', 'l', 'e', 's', 's']
 /-- names within one SCPD are distinct (state variables by stripped name, actions by name) -/
 def ScpdSpec.Distinct (sp : ScpdSpec) : Prop :=
   (∀ l, sp.vars = some l → (l.map fun v => stripWs (v.name.getD [])).Nodup)
-  ∧ (∀ l, sp.actions = some l → (l.map fun a => a.name.getD nameless).Nodup)
+  ∧ (∀ lv, sp.vars = some lv → ∀ l, sp.actions = some l → (l.map fun a => a.name.getD nameless).Nodup)
 
 def DocSpec.Distinct : DocSpec → Prop
   | .scpd sp => sp.Distinct
@@ -166,7 +166,7 @@ theorem body_render (nonStrict : Bool) (doc : DocSpec) (hd : doc.Distinct) :
           | error e => rfl
           | ok acts =>
             have hna : (acts.map (·.name)).Nodup := by
-              rw [acts_names vars la acts hma]; exact hda la ha
+              rw [acts_names vars la acts hma]; exact hda l hv la ha
             simp [dictValues_nodup _ vars hn, dictValues_nodup _ acts hna]
 
 theorem createService_render (fetch : Str → Fetch) (nonStrict : Bool) (base : Str) (s : ServiceSpec) (u : Str)
